@@ -19,7 +19,7 @@ func init() {
 	})
 	register(&propDef{
 		id:      "C35",
-		explain: "Structural necessary conditions of 'temporary files of a parsed multipart form never outlive the request': (R1) a *multipart.Form produced by ReadForm / readMultipartForm is, on every path from the producing call to a return, stored into Request.multipartForm (where Reset finds it), returned to the caller, explicitly removed with RemoveAll, or the producing call reported an error; (R2) Request.multipartForm is set to nil only after RemoveAll on the non-nil branch; (R3) Request.Reset and RequestCtx.reset clear multipartForm on every path (through the remover), and every serve-loop iteration that ran a handler passes Request.Reset before the next request. (R4) a form (or the nil of a failed parse) is stored into Request.multipartForm only where the slot is known to be empty on that path - the field was tested and found nil, or a routine that removes the files and clears the slot ran before; routines that receive the connection reader fill a request emptied by the read entry points (checked: Read/ReadLimitBody clear on every path) or by the serve loop (R3); a ctx goes back to the pool only after RequestCtx.reset; (R5) the serve function leaves, on every return, with its ctx released or handed to the hijack goroutine (decided with the premise, itself checked, that errHijacked is handed out only after that goroutine was started), and the hijack goroutine resets the request it took over on every path, by releaseCtx or Request.Reset. (R6) in WriteMultipartForm every iteration of a loop over the form's values or files passes a part-creating call of the multipart writer before the loop header is reached again - no entry is skipped, whatever it holds. Not decided: form content round trip beyond that, files moved away by user code.",
+		explain: "Structural necessary conditions of 'temporary files of a parsed multipart form never outlive the request': (R1) a *multipart.Form produced by ReadForm / readMultipartForm is, on every path from the producing call to a return, stored into Request.multipartForm (where Reset finds it), returned to the caller, explicitly removed with RemoveAll, or the producing call reported an error; (R2) Request.multipartForm is set to nil only after RemoveAll on the non-nil branch; (R3) Request.Reset and RequestCtx.reset clear multipartForm on every path (through the remover), and every serve-loop iteration that ran a handler passes Request.Reset before the next request. (R4) a form (or the nil of a failed parse) is stored into Request.multipartForm only where the slot is known to be empty on that path - the field was tested and found nil, or a routine that removes the files and clears the slot ran before; routines that receive the connection reader fill a request emptied by the read entry points (checked: Read/ReadLimitBody clear on every path) or by the serve loop (R3); a ctx goes back to the pool only after RequestCtx.reset; (R5) the serve function leaves, on every return, with its ctx released or handed to the hijack goroutine (decided with the premise, itself checked, that errHijacked is handed out only after that goroutine was started), and the hijack goroutine resets the request it took over on every path, by releaseCtx or Request.Reset. (R7) a file part is created with a Content-Disposition computed from the key the file is stored under and its current Filename; (R8) hijackConnHandler removes the request's uploaded files on every path to the close of the connection; (R6) in WriteMultipartForm every iteration of a loop over the form's values or files passes a part-creating call of the multipart writer before the loop header is reached again - no entry is skipped, whatever it holds. Not decided: form content round trip beyond that, files moved away by user code.",
 		run:     runC35,
 	})
 }
@@ -244,6 +244,8 @@ func runC35(p *Prog, r *Report) {
 	formSlotOverwrittenOnlyWhenEmpty(p, r)
 	ctxReleasedOrHandedOver(p, r)
 	everyEntryGetsItsPart(p, r)
+	filePartNamedByKey(p, r)
+	uploadsRemovedBeforeClose(p, r)
 	// R1: producers of *multipart.Form
 	isFormProducer := func(c *ssa.Call) bool {
 		f := c.Call.StaticCallee()
@@ -939,4 +941,82 @@ func everyEntryGetsItsPart(p *Prog, r *Report) {
 			"the loop header is reachable again from itself without a part-creating call of the multipart writer: an entry for which the iteration continues early (an empty file, say) leaves no part in the message - its name, filename and content type are lost and the written form does not parse back to the original", blocksString(p, path)...)
 	}
 	r.Floor("R6", "entry loops with a part-creating call in WriteMultipartForm", len(headers), 2)
+}
+
+// filePartNamedByKey (C35.R7): a file part of a written form is named by the key the file is stored under and by its
+// current FileHeader.Filename. In WriteMultipartForm the header given to the part-creating call of a file carries a
+// Content-Disposition computed from the loop's key and the Filename field (multipart.FileContentDisposition, or the
+// part is created with CreateFormFile from them) - the header the file was once parsed with is not written verbatim.
+func filePartNamedByKey(p *Prog, r *Report) {
+	fn := p.Func("WriteMultipartForm")
+	if fn == nil {
+		r.Undecided("R7", "WriteMultipartForm", "not found")
+		return
+	}
+	n := 0
+	allCalls(fn, func(b *ssa.BasicBlock, c ssa.CallInstruction) {
+		f := c.Common().StaticCallee()
+		if f == nil || recvTypeName(f) != "Writer" || f.Pkg == nil || f.Pkg.Pkg.Path() != "mime/multipart" {
+			return
+		}
+		if f.Name() != "CreatePart" && f.Name() != "CreateFormFile" {
+			return
+		}
+		n++
+		named := f.Name() == "CreateFormFile"
+		if !named {
+			// a disposition computed from a key and a file name is put into the header before the part is created
+			for _, bb := range fn.Blocks {
+				for _, in := range bb.Instrs {
+					cc, ok := in.(*ssa.Call)
+					if !ok || cc.Call.StaticCallee() == nil || cc.Call.StaticCallee().Name() != "FileContentDisposition" || len(cc.Call.Args) != 2 {
+						continue
+					}
+					fromName := false
+					if _, fv := loadedField(cc.Call.Args[1]); fv != nil && fv.Name() == "Filename" {
+						fromName = true
+					}
+					if fromName && dominatesInstr(in, c) {
+						named = true
+					}
+				}
+			}
+		}
+		r.Check("R7", "WriteMultipartForm: a file part is named by the key it is stored under and by its current file name", named, p.Pos(c.Pos()),
+			"the part is created from the header the file was parsed with, no Content-Disposition is computed from the map key and FileHeader.Filename: a file moved to another key (or renamed) is written under its old name, and the form does not parse back to what was written")
+	})
+	r.Floor("R7", "file parts created in WriteMultipartForm", n, 1)
+}
+
+// uploadsRemovedBeforeClose (C35.R8): when the hijack handler has returned and the connection is not kept, the uploaded
+// files of the request are removed before the connection is closed: in hijackConnHandler every path to c.Close()
+// passes a call that removes the request's multipart files (RemoveMultipartFormFiles, or a Reset of the request).
+func uploadsRemovedBeforeClose(p *Prog, r *Report) {
+	fn := p.Func("hijackConnHandler")
+	if fn == nil {
+		r.Undecided("R8", "hijackConnHandler", "not found")
+		return
+	}
+	removes := func(i ssa.Instruction) bool {
+		c, ok := i.(ssa.CallInstruction)
+		if !ok || c.Common().StaticCallee() == nil {
+			return false
+		}
+		f := c.Common().StaticCallee()
+		return recvTypeName(f) == "Request" && (f.Name() == "RemoveMultipartFormFiles" || f.Name() == "Reset")
+	}
+	n := 0
+	for _, b := range fn.Blocks {
+		for _, in := range b.Instrs {
+			c, ok := in.(ssa.CallInstruction)
+			if !ok || !c.Common().IsInvoke() || c.Common().Method.Name() != "Close" || !typeIsNetConn(c.Common().Value.Type()) {
+				continue
+			}
+			n++
+			hit, path := reachAvoiding(fn, nil, func(i ssa.Instruction) bool { return i == in }, removes, nil)
+			r.Check("R8", "hijackConnHandler removes the request's uploaded files before it closes the connection", hit == nil, p.Pos(in.Pos()),
+				"c.Close() is reachable without the removal of the request's multipart files: the temporary files of the upload outlive the connection they came over", blocksString(p, path)...)
+		}
+	}
+	r.Floor("R8", "closes of the hijacked connection in hijackConnHandler", n, 1)
 }
